@@ -5,7 +5,10 @@
  *
  *  L <W> <H> <samp> <mode> <arith> <prec> <rst> <pseed> | <M> <fancy> <dct> <quant> <ocs> | <cx> <cw> | <ops>
  *  F  ... same as L: same history on a decompress object that first decoded the stream with fancy upsampling (F5 probe)
- *  T <W> <H> <samp> <mode> <arith> <prec> <rst> <pseed> | <sfidx> <fastups> <fastdct> <pf> | <x> <y> <w> <h>
+ *  B <enc> | <dec> | <cx> <cw> <when> | <scan> <ops> ; <scan> <ops> ; ...   buffered-image mode, one jpeg_crop_scanline
+ *    (when = 0: in state DSTATE_BUFIMAGE before the first jpeg_start_output, 1: right after it), several output passes
+ *  C  ... same as B on a decompress object that first decoded the stream completely (reuse probe)
+ *  T <W> <H> <samp> <mode> <arith> <prec> <rst> <pseed> | <sfidx> <fastups> <fastdct> <pf> [<bottomup> <pad>] | <x> <y> <w> <h>
  *    samp = digits h0 v0 h1 v1 ...; mode 0 baseline, 1 progressive, 2 sequential non-interleaved,
  *           3/4/5 progressive file truncated after 1/2/3 scans, 6 DC-only script with final Al = 1,
  *           7 DC + AC 1..5 (Al = 1) of component 0 only   (3..7: block smoothing is active in the decoder)
@@ -80,17 +83,18 @@ static const int pfs[] = { TJPF_RGB, TJPF_BGRX, TJPF_GRAY, TJPF_RGBA, TJPF_CMYK 
 
 static void tj_case(char *a, char *b)
 {
-  int sfi, fu, fd, pfi, x, y, w, h, nsf, rc, pf, ps, sw, sh, prec = E.prec;
+  int sfi, fu, fd, pfi, bu = 0, pad = 0, x, y, w, h, nsf, rc, pf, ps, sw, sh, prec = E.prec;
   tjscalingfactor *sfs = tj3GetScalingFactors(&nsf), sf;
-  tjhandle t1 = NULL, t2 = NULL; unsigned char *fullp = NULL, *part = NULL; char *o = outbuf;
+  tjhandle t1 = NULL, t2 = NULL; unsigned char *fullp = NULL, *area = NULL; char *o = outbuf;
   tjregion reg;
-  if (sscanf(a, "%d %d %d %d", &sfi, &fu, &fd, &pfi) != 4 || sscanf(b, "%d %d %d %d", &x, &y, &w, &h) != 4) { printf("bad-case\n"); return; }
+  if (sscanf(a, "%d %d %d %d %d %d", &sfi, &fu, &fd, &pfi, &bu, &pad) < 4 || sscanf(b, "%d %d %d %d", &x, &y, &w, &h) != 4) { printf("bad-case\n"); return; }
   sf = sfs[((sfi % nsf) + nsf) % nsf];
   pf = pfs[pfi % 5]; if (E.ncomp == 4) pf = TJPF_CMYK; else if (pf == TJPF_CMYK) pf = TJPF_RGB;
   ps = tjPixelSize[pf] * (prec == 8 ? 1 : 2);
   t1 = tj3Init(TJINIT_DECOMPRESS); t2 = tj3Init(TJINIT_DECOMPRESS);
   tj3Set(t1, TJPARAM_FASTUPSAMPLE, fu); tj3Set(t1, TJPARAM_FASTDCT, fd);
   tj3Set(t2, TJPARAM_FASTUPSAMPLE, fu); tj3Set(t2, TJPARAM_FASTDCT, fd);
+  tj3Set(t2, TJPARAM_BOTTOMUP, bu ? 1 : 0);      /* the reference t1 is always top-down */
   if (tj3DecompressHeader(t1, E.jpg, E.len) || tj3DecompressHeader(t2, E.jpg, E.len)) { printf("tj header-error %s\n", tj3GetErrorStr(t1)); goto done; }
   o += sprintf(o, "tj sub=%d sf=%d/%d", tj3Get(t1, TJPARAM_SUBSAMP), sf.num, sf.denom);
   if (tj3SetScalingFactor(t1, sf) || tj3SetScalingFactor(t2, sf)) { printf("%s sf-error\n", outbuf); goto done; }
@@ -105,28 +109,44 @@ static void tj_case(char *a, char *b)
     int rw = w == 0 ? sw - x : w, rh = h == 0 ? sh - y : h, i, bad = 0, by = -1, cmin = 1 << 30, cmax = -1;
     /* fancy upsampling: first/last column of a cropped region may differ (a region of <= 2 columns consists of them) */
     int ex0 = !fu && rw != sw && (x > 0 || rw <= 2), ex1 = !fu && rw != sw && (x + rw < sw || rw <= 2);
+    size_t rowbytes, pitchb, extent, before, after, k; int pitch_samples; unsigned char *dst; long outside = 0;
     if (x == 0 && y == 0 && w == 0 && h == 0) { rw = sw; rh = sh; }
-    part = (unsigned char *)malloc((size_t)rw * rh * ps + 64);
-    memset(part, 0x5A, (size_t)rw * rh * ps + 64);
-    rc = prec == 8 ? tj3Decompress8(t2, E.jpg, E.len, part, 0, pf) : tj3Decompress12(t2, E.jpg, E.len, (short *)part, 0, pf);
+    /* destination: pitch = row + padding; the documented extent is pitch * h bytes.  It sits inside a guard area that
+       is large enough for rows misplaced by up to the full image height, before and after it. */
+    rowbytes = (size_t)rw * ps;
+    pitch_samples = rw * tjPixelSize[pf] + (pad > 0 ? pad : 0);
+    pitchb = (size_t)pitch_samples * (prec == 8 ? 1 : 2);
+    extent = pitchb * rh;
+    before = pitchb * (sh + 2) + 64; after = pitchb * (sh + 2) + 64;
+    area = (unsigned char *)malloc(before + extent + after);
+    memset(area, 0x5A, before + extent + after);
+    dst = area + before;
+    rc = prec == 8 ? tj3Decompress8(t2, E.jpg, E.len, dst, pad > 0 ? pitch_samples : 0, pf)
+                   : tj3Decompress12(t2, E.jpg, E.len, (short *)dst, pad > 0 ? pitch_samples : 0, pf);
     o += sprintf(o, " dec=%d", rc);
     if (rc == 0) {
       for (i = 0; i < rh; i++) {
+        /* documented order: buffer row i is region row i, or region row h-1-i when bottom-up */
+        int src = bu ? rh - 1 - i : i;
+        unsigned char *got = dst + (size_t)i * pitchb, *want = fullp + ((size_t)(y + src) * sw + x) * ps;
         int a0 = ex0 ? 1 : 0, b0 = rw - (ex1 ? 1 : 0);
-        if (b0 > a0 && memcmp(part + ((size_t)i * rw + a0) * ps, fullp + ((size_t)(y + i) * sw + x + a0) * ps, (size_t)(b0 - a0) * ps)) {
+        if (b0 > a0 && memcmp(got + (size_t)a0 * ps, want + (size_t)a0 * ps, (size_t)(b0 - a0) * ps)) {
           int c; bad++; if (by < 0) by = i;
           for (c = a0; c < b0; c++)
-            if (memcmp(part + ((size_t)i * rw + c) * ps, fullp + ((size_t)(y + i) * sw + x + c) * ps, ps)) { if (c < cmin) cmin = c; if (c > cmax) cmax = c; }
+            if (memcmp(got + (size_t)c * ps, want + (size_t)c * ps, ps)) { if (c < cmin) cmin = c; if (c > cmax) cmax = c; }
         }
+        /* the padding of the row stays untouched */
+        for (k = rowbytes; k < pitchb; k++) if (got[k] != 0x5A) outside++;
       }
-      /* guard bytes after the region must be untouched */
-      for (i = 0; i < 64; i++) if (part[(size_t)rw * rh * ps + i] != 0x5A) { bad++; by = -2; break; }
-      if (bad) o += sprintf(o, " | px bad row=%d n=%d cols=%d-%d", by, bad, cmax < 0 ? -1 : cmin, cmax); else o += sprintf(o, " | px ok %d", rh);
+      for (k = 0; k < before; k++) if (area[k] != 0x5A) outside++;
+      for (k = 0; k < after; k++) if (area[before + extent + k] != 0x5A) outside++;
+      if (bad || outside) o += sprintf(o, " | px bad row=%d n=%d cols=%d-%d outside=%ld", by, bad, cmax < 0 ? -1 : cmin, cmax, outside);
+      else o += sprintf(o, " | px ok %d", rh);
     } else o += sprintf(o, " | px none (%s)", tj3GetErrorStr(t2));
   } else o += sprintf(o, " | px none");
   printf("%s\n", outbuf);
 done:
-  free(fullp); free(part);
+  free(fullp); free(area);
   if (t1) tj3Destroy(t1); if (t2) tj3Destroy(t2);
 }
 
@@ -146,6 +166,26 @@ int main(void)
     if (kind == 'T') {
       if (nf < 3) { printf("bad-case\n"); continue; }
       tj_case(f[1], f[2]);
+    } else if (kind == 'B' || kind == 'C') {
+      struct dec s; long cx, cw; int when = 0, nd, np = 0, pk[4]; char *pops[4]; static struct full FP[4]; int q, bad = 0; char *pp;
+      s.bscan = 0;
+      nd = nf >= 4 ? sscanf(f[1], "%d %d %d %d %d %d", &s.M, &s.fancy, &s.dct, &s.quant, &s.ocs, &s.bscan) : 0;
+      if (nf < 4 || nd < 5 || sscanf(f[2], "%ld %ld %d", &cx, &cw, &when) < 2) { printf("bad-case\n"); continue; }
+      pp = f[3];
+      while (pp && *pp && np < 4) {
+        char *semi = strchr(pp, ';'); char *endp;
+        if (semi) *semi = 0;
+        pk[np] = (int)strtol(pp, &endp, 10); pops[np] = endp; np++;
+        pp = semi ? semi + 1 : NULL;
+      }
+      for (q = 0; q < np; q++) {      /* reference: fresh decompressor, buffered-image mode, output pass on the same scan */
+        struct dec s2 = s; s2.bscan = pk[q] > 0 ? pk[q] : 1; pk[q] = s2.bscan;
+        free(FP[q].pix); FP[q].pix = NULL;
+        if ((E.prec == 8 ? fulldecode8(&E, &s2, &FP[q]) : fulldecode12(&E, &s2, &FP[q])) != 0) bad = 1;
+      }
+      if (bad || np == 0) { printf("full-err %d\n", last_err); continue; }
+      if (E.prec == 8) bhistory8(&E, &s, np, pk, pops, FP, cx, cw, when, kind == 'C');
+      else bhistory12(&E, &s, np, pk, pops, FP, cx, cw, when, kind == 'C');
     } else {
       struct dec s; long cx, cw;
       int nd; s.bscan = 0;
